@@ -162,6 +162,11 @@ class AddCheck:
     def run(self, tier, rng, log):
         corpus = corpus_cases(self.pid, 'add')
         cases = corpus + list(self.gen(tier, rng))
+        # structural neighbours of the generated cases (gens.mutate_doc): shapes nobody wrote a generator for
+        import gens
+        n_fuzz = getattr(self, 'n_fuzz', 1500 if tier == 'quick' else 15000)
+        fuzz = list(gens.fuzzed_cases(cases, rng, n_fuzz))
+        cases += fuzz
         dis, vio, st = self.evaluate(cases)
         if dis and not vio:
             # a disagreement that is not itself a violation: search the whole space with the oracle
@@ -171,7 +176,7 @@ class AddCheck:
         return {'evaluations': st['n'], 'distinct': len(st['sigs']), 'rule': self.rule,
                 'samples': st['samples'], 'distribution': dict(st['dist']),
                 'disagreements': dis, 'violations': vio, 'exhaustive': False,
-                'extra': {'corpus_cases': len(corpus)}}
+                'extra': {'corpus_cases': len(corpus), 'fuzzed_cases': len(fuzz)}}
 
     # -- single-case evaluation used by replay and shrink
     def case_violation(self, case):
